@@ -49,7 +49,8 @@ NoWrap == <<"-">>
 
 Base == [
   types |-> <<
-    [n |-> "LEVEL", k |-> "enum", vals |-> <<"LOW", "MID", "HIGH">>, def |-> "LOW"],
+    \* qual: the positions of the value list that are written with the type prefix (LEVEL#LOW) - the same value either way
+    [n |-> "LEVEL", k |-> "enum", vals |-> <<"LOW", "MID", "HIGH">>, def |-> "LOW", qual |-> {}],
     [n |-> "LEVEL2", k |-> "alias", base |-> "LEVEL", def |-> "MID"],
     [n |-> "PT", k |-> "struct", elems |-> << [n |-> "x", ty |-> "INT", init |-> NoInit], [n |-> "y", ty |-> "BOOL", init |-> NoInit],
                                                [n |-> "lv", ty |-> "LEVEL", init |-> <<"enum", "HIGH">>] >>],
@@ -246,7 +247,7 @@ GrowWrap == \E i \in PouIdx(unit), j \in 1..3, w \in Wraps("") :
                      SetStmt(unit, i, j, [unit.pous[i].body[j] EXCEPT !.wrap = MkWrap(w[1], IntVar(unit.pous[i]).n)]))
 GrowEnumValue == "TOP" \notin Range(unit.types[1].vals) /\ Edit(<<"grow:enumvalue">>, [unit EXCEPT !.types[1].vals = Append(@, "TOP")])
 GrowStructElem == (\A i \in 1..Len(unit.types[3].elems) : unit.types[3].elems[i].n # "z") /\ Edit(<<"grow:structelem">>, [unit EXCEPT !.types[3].elems = Append(@, [n |-> "z", ty |-> "INT", init |-> NoInit])])
-GrowType == "COLOR" \notin TypeNames(unit) /\ Edit(<<"grow:type">>, [unit EXCEPT !.types = Append(@, [n |-> "COLOR", k |-> "enum", vals |-> <<"RED", "GREEN">>, def |-> "RED"])])
+GrowType == "COLOR" \notin TypeNames(unit) /\ Edit(<<"grow:type">>, [unit EXCEPT !.types = Append(@, [n |-> "COLOR", k |-> "enum", vals |-> <<"RED", "GREEN">>, def |-> "RED", qual |-> {2}])])
 GrowTask == "T2" \notin Range(unit.config.tasks) /\ Edit(<<"grow:task">>, [unit EXCEPT !.config.tasks = Append(@, "T2"),
                                                !.config.progs = Append(@, [n |-> "I3", task |-> "T2", ty |-> "MAIN"])])
 \* a non-formal invocation supplies one actual per input of the callee
@@ -273,7 +274,14 @@ GrowPou == (\A p \in Range(unit.pous) : p.n # "EXTRA") /\ Edit(<<"grow:pou">>, [
 (* --- planting: the documented "Fails" shape of one rule at one site --- *)
 PlantDupStructElem == Edit(<<"plant:StructElemUnique", "PT">>, [unit EXCEPT !.types[3].elems = Append(@, [n |-> "x", ty |-> "BOOL", init |-> NoInit])])
 PlantBadSubrange == \E b \in {<<10, 1>>, <<5, 5>>} : Edit(<<"plant:SubrangeOrdered", "RNG", b[1], b[2]>>, [unit EXCEPT !.types[4].lo = b[1], !.types[4].hi = b[2]])
-PlantDupEnumValue == \E v \in {"LOW", "HIGH"} : Edit(<<"plant:EnumValuesUnique", "LEVEL", v>>, [unit EXCEPT !.types[1].vals = Append(@, v)])
+\* a value listed twice - both spelled alike, or one of them with the type prefix
+PlantDupEnumValue == \E v \in {"LOW", "HIGH"}, q \in {"plain", "second-qualified", "first-qualified"} :
+                       LET n == Len(unit.types[1].vals) + 1
+                           first == CHOOSE i \in 1..(n - 1) : unit.types[1].vals[i] = v
+                       IN  Edit(<<"plant:EnumValuesUnique", "LEVEL", v, q>>,
+                                [unit EXCEPT !.types[1].vals = Append(@, v),
+                                             !.types[1].qual = @ \cup (IF q = "second-qualified" THEN {n} ELSE IF q = "first-qualified" THEN {first} ELSE {})])
+GrowQualifyEnumValue == unit.types[1].qual = {} /\ Edit(<<"grow:qualify">>, [unit EXCEPT !.types[1].qual = {2}])
 \* an undeclared name in every role of every statement of every POU.  The name is one that exists nowhere ("zz"),
 \* or - scoping - one that IS declared, but not in this POU: a variable of the previous / next POU of the unit,
 \* or a global this POU has no VAR_EXTERNAL declaration for.
@@ -317,8 +325,11 @@ PlantUnknownType ==
         /\ Edit(<<"plant:TypeDeclared", unit.pous[i].n, cls, ini[1]>>, AddVarTo(unit, i, V("nt", cls, "-", "MISSING", ini)))
   \/ Edit(<<"plant:TypeDeclared", "PT", "element">>, [unit EXCEPT !.types[3].elems = Append(@, [n |-> "w", ty |-> "MISSING", init |-> NoInit])])
   \/ Edit(<<"plant:TypeDeclared", "LEVEL2", "alias">>, [unit EXCEPT !.types[2].base = "MISSING"])
-PlantStdlib == \E i \in PouIdx(unit), ty \in UnsupportedStd : "ns" \notin VarNames(unit.pous[i]) /\
-                 Edit(<<"plant:StdlibSupported", unit.pous[i].n, ty>>, AddVarTo(unit, i, V("ns", "VAR", "-", ty, NoInit)))
+\* a variable of a standard function block type the compiler does not implement - declared only, or also invoked
+PlantStdlib == \E i \in PouIdx(unit), ty \in UnsupportedStd, invoked \in BOOLEAN : "ns" \notin VarNames(unit.pous[i]) /\
+                 LET u2 == AddVarTo(unit, i, V("ns", "VAR", "-", ty, NoInit))
+                 IN  Edit(<<"plant:StdlibSupported", unit.pous[i].n, ty, IF invoked THEN "invoked" ELSE "declared">>,
+                          IF invoked THEN AddStmtTo(u2, i, C(NoWrap, "ns", <<>>, <<>>, <<>>)) ELSE u2)
 \* an invocation of something that is not an instance of this POU: a name declared nowhere ("ghost"), or - scoping -
 \* the name of an instance that another POU declares (the previous / next one: a leak between sibling declarations)
 ForeignInstances(i) == UNION {PickOne({v.n : v \in {w \in VarsOf(unit.pous[k]) : w.ty \in FBNames(unit)}} \ VarNames(unit.pous[i])) :
@@ -359,13 +370,13 @@ PlantExternNotConst ==
   \/ \E i \in {1, 2} : Edit(<<"plant:ExternOfConstIsConst", unit.pous[i].n, "new">>, AddVarTo(unit, i, V("gk", "VAR_EXTERNAL", "-", "INT", NoInit)))
 
 Grow == (("grow" \in EditKinds) /\ (GrowVar \/ GrowConst \/ GrowStmt \/ GrowWrap \/ GrowEnumValue \/ GrowStructElem \/ GrowType \/ GrowTask
-                                     \/ GrowPositionalCall \/ GrowEmptyCall \/ GrowInOut \/ GrowGlobal \/ GrowPou \/ GrowConfig2 \/ GrowStdNamedType))
+                                     \/ GrowPositionalCall \/ GrowEmptyCall \/ GrowInOut \/ GrowGlobal \/ GrowPou \/ GrowConfig2 \/ GrowStdNamedType \/ GrowQualifyEnumValue))
 Plant == (("plant" \in EditKinds) /\ (PlantDupStructElem \/ PlantBadSubrange \/ PlantDupEnumValue \/ PlantUndeclaredVar \/ PlantBadEnumInit
                                        \/ PlantBadEnumStmt \/ PlantUnknownType \/ PlantStdlib \/ PlantUnknownInstance \/ PlantMix
                                        \/ PlantUnknownInput \/ PlantArity \/ PlantUnknownOutput \/ PlantUndefinedTask \/ PlantConstNoInit
                                        \/ PlantConstFB \/ PlantExternNotConst))
 
-IsGrow(e) == e[1] \in {"grow:config2", "grow:stdnamedtype", "grow:inout", "grow:var", "grow:const", "grow:stmt", "grow:wrap", "grow:enumvalue", "grow:structelem", "grow:type", "grow:task",
+IsGrow(e) == e[1] \in {"grow:qualify", "grow:config2", "grow:stdnamedtype", "grow:inout", "grow:var", "grow:const", "grow:stmt", "grow:wrap", "grow:enumvalue", "grow:structelem", "grow:type", "grow:task",
                        "grow:positionalcall", "grow:emptycall", "grow:global", "grow:pou"}
 
 Init == unit = Base /\ edits = <<>>
@@ -387,7 +398,9 @@ NPlants == Cardinality({i \in 1..Len(edits) : ~IsGrow(edits[i])})
 PlantSound == /\ (NPlants = 1 => \A l \in PlantedRules : RuleOfEdit(l) \in Violated(unit))
               /\ (NPlants >= 1 => Violated(unit) # {})
 \* and nothing else is violated by a single plant except rules that necessarily follow
-Consequences(r) == CASE r = "TypeDeclared" -> {"EnumValueDeclared"} [] r = "EnumValuesUnique" -> {} [] OTHER -> {}
+Consequences(r) == CASE r = "TypeDeclared" -> {"EnumValueDeclared"} [] r = "EnumValuesUnique" -> {}
+                     [] r = "StdlibSupported" -> {"FBInstanceDeclared"}     \* an invoked variable of such a type is not an instance of a declared block
+                     [] OTHER -> {}
 SingleFaultIsSingle == (Len(edits) >= 1 /\ Cardinality(PlantedRules) = 1 /\ Cardinality({i \in 1..Len(edits) : ~IsGrow(edits[i])}) = 1) =>
                           \A r \in Violated(unit) : r = RuleOfEdit(CHOOSE l \in PlantedRules : TRUE) \/ r \in Consequences(RuleOfEdit(CHOOSE l \in PlantedRules : TRUE))
 
@@ -396,7 +409,7 @@ SingleFaultIsSingle == (Len(edits) >= 1 /\ Cardinality(PlantedRules) = 1 /\ Card
 LabelTargets(e) ==
   CASE e[1] = "plant:StructElemUnique"      -> {"x", "PT"}
     [] e[1] = "plant:SubrangeOrdered"       -> {ToString(e[3]), ToString(e[4]), "RNG"}
-    [] e[1] = "plant:EnumValuesUnique"      -> {e[3], "LEVEL"}
+    [] e[1] = "plant:EnumValuesUnique"      -> {e[3], "LEVEL", "LEVEL#" \o e[3]}
     [] e[1] = "plant:VarDeclared"           -> {e[5]}
     [] e[1] = "plant:EnumValueDeclared"     -> {"NOPE"}
     [] e[1] = "plant:StmtEnumValueDeclared" -> {"NOPE"}
